@@ -49,12 +49,25 @@ func unmarshalFromYaml(yamlSpecs []byte) ([]OperationSpec, error) {
 
 	dec := yaml.NewDecoder(bytes.NewReader(yamlSpecs))
 	for {
-		var doc OperationSpec
-		err := dec.Decode(&doc)
+		// Decode a document into a generic value and pass it through JSON, so that
+		// values get the same Go types as in the JSON form of the document
+		// (the YAML decoder yields int, which unstructured objects cannot hold).
+		var rawDoc any
+		err := dec.Decode(&rawDoc)
 		if err == io.EOF {
 			break
 		}
 		if err != nil {
+			return nil, err
+		}
+
+		jsonDoc, err := json.Marshal(rawDoc)
+		if err != nil {
+			return nil, err
+		}
+
+		var doc OperationSpec
+		if err := json.Unmarshal(jsonDoc, &doc); err != nil {
 			return nil, err
 		}
 
